@@ -203,6 +203,27 @@ def _contains(node, pred) -> bool:
     return pred(node) or any(_contains(c, pred) for c in _children(node))
 
 
+def boolean_valued(node, bool_names=()) -> bool:
+    """a relational / logical call (possibly in parentheses) or a name bound to one"""
+    while node[0] == "par":
+        node = node[1]
+    return (node[0] == "call" and node[1] in BOOL_CALLS) or (node[0] == "var" and node[1] in bool_names)
+
+
+def boolean_in_arithmetic(node, bool_names=()) -> bool:
+    """a relational / logical value used as a NUMBER: operand of + - * / ** or of a unary sign, or argument of a numeric function
+    (`2 + Eq(2, 1e-1)`, `Ge(0.4 + u, u)*u`, `-(Lt(time, -12.5)*tau)`).  sympy folds such a relational to BooleanTrue / BooleanFalse when it is
+    decidable (and NumPy computes with Python / NumPy booleans and integers): territory of the listed boolean-used-arithmetically findings"""
+    k = node[0]
+    if k in ("bin", "un") and any(boolean_valued(c, bool_names) for c in _children(node)):
+        return True
+    if k == "call" and node[1] not in BOOL_CALLS:
+        args = node[2][1:] if node[1] in ("Conditional", "ContinuousConditional") else node[2]
+        if any(boolean_valued(c, bool_names) for c in args):
+            return True
+    return any(boolean_in_arithmetic(c, bool_names) for c in _children(node))
+
+
 def pi_in_trig(node) -> bool:
     """`pi` anywhere inside the argument of sin / cos / tan (sympy evaluates trigonometric functions of an
     unevaluated sum containing pi and drops terms: cos(2 - pi + 2) -> -cos(2))"""
@@ -966,6 +987,23 @@ class RefModel:
 
     def has_pi_in_trig(self) -> bool:
         return any(pi_in_trig(a.ast) for a in self.assigns.values())
+
+    def boolean_used_arithmetically(self, names=None) -> bool:
+        """does an assignment (of `names` and what they depend on; default: any) use a relational / logical value as a number, directly or
+        through an intermediate that is bound to one (see boolean_in_arithmetic)"""
+        bool_names = set()
+        for _ in range(len(self.assigns) + 1):
+            more = {n for n, a in self.assigns.items() if boolean_valued(a.ast, bool_names)} - bool_names
+            if not more:
+                break
+            bool_names |= more
+        todo = set(self.assigns)
+        if names is not None:
+            todo = set()
+            for n in names:
+                if n in self.assigns:
+                    todo |= self.closure(n)
+        return any(boolean_in_arithmetic(self.assigns[n].ast, bool_names) for n in todo if n in self.assigns)
 
     def pi_reaches_trig(self) -> bool:
         """`pi` inside a trigonometric argument directly or through the intermediates mentioned there (what substitution of
